@@ -242,7 +242,7 @@ def tier_params(tier):
     if tier == 'thorough':
         return dict(n_random=900, n_exh=3, n_rand_inputs=30, edge_inputs=80, max_alpha=4, per_crate=16, ctor_inputs=12, clone_inputs=8,
                     double_expand=10 ** 6, long_input=20000)
-    return dict(n_random=45, n_exh=2, n_rand_inputs=8, edge_inputs=30, max_alpha=4, per_crate=10, ctor_inputs=5, clone_inputs=3,
+    return dict(n_random=140, n_exh=2, n_rand_inputs=10, edge_inputs=30, max_alpha=4, per_crate=10, ctor_inputs=5, clone_inputs=3,
                 double_expand=24, long_input=3000)
 
 
@@ -466,8 +466,8 @@ def run_pipeline(tier, seed, log=lambda s: None):
     res['model_rc'] = rc
     res['model_err'] = err[-2000:]
     # per program
-    counters = {'programs': len(progs), 'built': 0, 'cases': 0, 'impl_model_equal': 0, 'impl_ref_equal': 0, 'rewinds': 0, 'errors': 0, 'customs': 0,
-                'switch_cases': 0, 'eoi_matches': 0, 'ctor_groups': 0, 'clone_traces': 0, 'nontrivial_cases': 0}
+    counters = {'programs': len(progs), 'built': 0, 'cases': 0, 'impl_model_equal': 0, 'impl_ref_equal': 0, 'errors': 0, 'customs': 0,
+                'switch_cases': 0, 'ctor_groups': 0, 'clone_traces': 0, 'nontrivial_cases': 0}
     distinct_traces = set()
     for d in progs:
         nm = d['name']
@@ -550,6 +550,12 @@ def run_pipeline(tier, seed, log=lambda s: None):
                 base = impl.get((nm, c['id'][:-1]))
                 if base is not None and base['lines'] != il:
                     add_violation(res, 'C15', nm, c, 'running clones changed the original stream', base['lines'], il)
+        if ref is not None:
+            # branch statistics of the reference runs (which lexing situations the cases exercised)
+            for k, v in ref.stats.items():
+                counters['ref_' + k] = counters.get('ref_' + k, 0) + v
+            if ref.stats.get('rewinds'):
+                counters['programs_with_rewind'] = counters.get('programs_with_rewind', 0) + 1
         for gid, g in groups.items():
             if gid is None or len(g) < 5:
                 continue
